@@ -484,6 +484,7 @@ func (db *DB) SetReadOnly() error {
 	// Set compaction read-only.
 	select {
 	case db.compErrSetC <- ErrReadOnly:
+		atomic.StoreUint32(&db.compReadOnly, 1)
 	case perr := <-db.compPerErrC:
 		return perr
 	case <-db.closeC:
